@@ -17,6 +17,14 @@ def q(s: str) -> str:
     return quote(s, safe="")
 
 
+def qd(s: str, style: str = "full") -> str:
+    """Escaping of a value inside a crypto dict ('key=value:key=value'). VMware itself escapes only the characters that
+    would break the syntax ('%', '=', ':'), so base64 '+' and '/' stay literal; escaping everything is equally valid."""
+    if style == "full":
+        return quote(s, safe="")
+    return s.replace("%", "%25").replace("=", "%3d").replace(":", "%3a")
+
+
 def seal(key: bytes, plaintext: bytes, mac: str, iv: bytes) -> bytes:
     """IV | AES-CBC(plaintext + PKCS#7) | HMAC(key, plaintext)[:n]"""
     name, size = MACS[mac]
@@ -26,18 +34,19 @@ def seal(key: bytes, plaintext: bytes, mac: str, iv: bytes) -> bytes:
 
 
 def phrase_pair(rng, passphrase: str, data_key: bytes, *, cipher: str, mac: str, kdf: str, rounds: int, salt: bytes, ident: str = "id1",
-                data_cipher: str | None = None):
+                data_cipher: str | None = None, dict_style: str = "full"):
     """-> (locator text, wrapped-key blob bytes)"""
     ks = KEY_SIZES[cipher]
     k1 = hashlib.pbkdf2_hmac(KDFS[kdf], passphrase.encode(), salt, rounds, ks)
     # the cipher named inside the wrapped dictionary belongs to the data key, not to the wrapping
-    inner = f"type=key:cipher={q(data_cipher or cipher)}:key={q(base64.b64encode(data_key).decode())}".encode()
+    inner = f"type=key:cipher={qd(data_cipher or cipher, dict_style)}:key={qd(base64.b64encode(data_key).decode(), dict_style)}".encode()
     blob = seal(k1, inner, mac, bytes(rng.randrange(256) for _ in range(16)))
-    return blob, {"ident": ident, "kdf": kdf, "cipher": cipher, "rounds": rounds, "salt": salt, "mac": mac}
+    return blob, {"ident": ident, "kdf": kdf, "cipher": cipher, "rounds": rounds, "salt": salt, "mac": mac, "dict_style": dict_style}
 
 
 def pair_text(blob: bytes, p: dict) -> str:
-    pd = f"pass2key={q(p['kdf'])}:cipher={q(p['cipher'])}:rounds={p['rounds']}:salt={q(base64.b64encode(p['salt']).decode())}"
+    st = p.get("dict_style", "full")
+    pd = f"pass2key={qd(p['kdf'], st)}:cipher={qd(p['cipher'], st)}:rounds={p['rounds']}:salt={qd(base64.b64encode(p['salt']).decode(), st)}"
     return f"pair/(phrase/{q(p['ident'])}/{q(pd)},{q(p['mac'])},{q(base64.b64encode(blob).decode())})"
 
 
